@@ -403,6 +403,15 @@ structure InitStatus where
   updateRevision : Template
   deriving Repr, DecidableEq
 
+/-- the end of `Initialize`: `canary.Create`, then "record revision and replicas" -/
+def initTail (c : Cfg) (br : BR) (s : S) (st : Dep) : S × Res × Option InitStatus :=
+  match canaryCreate c br s with
+  | (s, .ok) =>
+    match s.canary, st.replicas with
+    | some cd, some r => (s, .ok, some { observedReplicas := r, updateRevision := cd.template })
+    | _, _ => (s, .panic, none)          -- unreachable: Create returns nil only with a canary object
+  | (s, r) => (s, r, none)
+
 /-- `realCanaryController.Initialize` -/
 def planeInitialize (c : Cfg) (br : BR) (s : S) : S × Res × Option InitStatus :=
   match buildStable c br s with
@@ -413,13 +422,7 @@ def planeInitialize (c : Cfg) (br : BR) (s : S) : S × Res × Option InitStatus 
       match buildCanary c br s with
       | (s, .fail .err) => (s, .err, none)
       | (s, .fail .panic) => (s, .panic, none)
-      | (s, _) =>                              -- found, or NotFound (ignored)
-        match canaryCreate c br s with
-        | (s, .ok) =>
-          match s.canary, st.replicas with
-          | some cd, some r => (s, .ok, some { observedReplicas := r, updateRevision := cd.template })
-          | _, _ => (s, .panic, none)          -- unreachable: Create returns nil only with a canary object
-        | (s, r) => (s, r, none)
+      | (s, _) => initTail c br s st       -- found, or NotFound (ignored)
     | (s, r) => (s, r, none)
 
 /-- the common prefix of `UpgradeBatch` and `EnsureBatchPodsReadyAndLabeled`:
@@ -463,19 +466,22 @@ def planeEnsureReady (c : Cfg) (br : BR) (s : S) : S × Res :=
         desired := desired, knobCur := int 0, knobDes := int 0, failureThreshold := br.failureThreshold }
     (s, if RV.BatchCtx.isBatchReady ctx none = .ok then .ok else .err)
 
+/-- `Finalize` after the stable controller was built: `stable.Finalize`, `BuildCanaryController`, `canary.Delete` -/
+def finTail (c : Cfg) (br : BR) (s : S) : S × Res :=
+  match stableFinalize c br s with
+  | (s, .ok) =>
+    match buildCanary c br s with
+    | (s, .fail .err) => (s, .err)
+    | (s, .fail .panic) => (s, .panic)
+    | (s, _) => canaryDelete c s                -- found, or NotFound (ignored)
+  | (s, r) => (s, r)
+
 /-- `realCanaryController.Finalize` (control plane) -/
 def planeFinalize (c : Cfg) (br : BR) (s : S) : S × Res :=
   match buildStable c br s with
   | (s, .fail .err) => (s, .err)
   | (s, .fail .panic) => (s, .panic)
-  | (s, _) =>                                   -- found, or NotFound (ignored)
-    match stableFinalize c br s with
-    | (s, .ok) =>
-      match buildCanary c br s with
-      | (s, .fail .err) => (s, .err)
-      | (s, .fail .panic) => (s, .panic)
-      | (s, _) => canaryDelete c s
-    | (s, r) => (s, r)
+  | (s, _) => finTail c br s                    -- found, or NotFound (ignored)
 
 /-! ## calls and runs -/
 
